@@ -44,6 +44,11 @@ type Case struct {
 	// stored: a two-step history. Columns A adds to a table of Pre are appended physically by ALTER
 	// TABLE wherever A lists them, so the physical column order differs from the schema's.
 	Pre *sqlm.Schema `json:"pre,omitempty"`
+	// Migrate, when set ("none" | "file"), runs the VERSIONED workflow through the CLI instead of
+	// `schema apply`: `migrate diff` computes the plan on a dev database opened WITHOUT foreign key
+	// enforcement (sqlite://dev?mode=memory, as in the docs) and writes it to a file, `migrate apply
+	// --tx-mode <Migrate>` executes the file later on the populated `_fk=1` database.
+	Migrate string `json:"migrate,omitempty"`
 }
 
 // Outcome is what one execution showed.
@@ -368,7 +373,124 @@ func branches(cs Case, plan []string) []string {
 	return slices.Compact(out)
 }
 
+// runMigrate is the versioned workflow (see Case.Migrate).
+func runMigrate(atlas, dir string, cs Case) (o Outcome) {
+	os.RemoveAll(dir)
+	mdir := filepath.Join(dir, "migrations")
+	if err := os.MkdirAll(mdir, 0o755); err != nil {
+		o.Inconclusive = err.Error()
+		return
+	}
+	path := filepath.Join(dir, "f.db")
+	var log []sqlm.CLIResult
+	defer func() {
+		if o.Detail == nil {
+			o.Detail = map[string]any{}
+		}
+		o.Detail["cli"] = log
+	}()
+	run := func(args ...string) sqlm.CLIResult {
+		r := sqlm.RunCLI(atlas, dir, args...)
+		log = append(log, r)
+		return r
+	}
+	cur, err := sqlm.WriteHCL(dir, "cur.hcl", cs.A)
+	if err != nil {
+		o.Inconclusive = err.Error()
+		return
+	}
+	want, err := sqlm.WriteHCL(dir, "want.hcl", cs.B)
+	if err != nil {
+		o.Inconclusive = err.Error()
+		return
+	}
+	const dev = "sqlite://dev?mode=memory"
+	if r := run("migrate", "diff", "init", "--dir", "file://migrations", "--to", cur, "--dev-url", dev); r.Exit != 0 {
+		o.Inconclusive = "migrate diff init: " + r.Stderr
+		return
+	}
+	// versions have one second granularity: give the first file a small fixed version
+	ents, _ := os.ReadDir(mdir)
+	for _, e := range ents {
+		if strings.HasSuffix(e.Name(), "_init.sql") {
+			os.Rename(filepath.Join(mdir, e.Name()), filepath.Join(mdir, "1_init.sql"))
+		}
+	}
+	if r := run("migrate", "hash", "--dir", "file://migrations"); r.Exit != 0 {
+		o.Inconclusive = "migrate hash: " + r.Stderr
+		return
+	}
+	url := "sqlite://f.db?_fk=1"
+	if r := run("migrate", "apply", "--dir", "file://migrations", "--url", url); r.Exit != 0 {
+		o.Inconclusive = "migrate apply init: " + r.Stderr + r.Stdout
+		return
+	}
+	if err := sqlm.PopulateFlex(path, cs.A, cs.Rows, cs.Flex); err != nil {
+		o.Inconclusive = "populate: " + err.Error()
+		return
+	}
+	before, err := dump(path)
+	if err != nil {
+		o.Inconclusive = "dump: " + err.Error()
+		return
+	}
+	if r := run("migrate", "diff", "change", "--dir", "file://migrations", "--to", want, "--dev-url", dev); r.Exit != 0 {
+		if sqlm.Unsupported(r.Stderr + r.Stdout) {
+			o.OOD = "cli: " + sqlm.ErrClass(strings.TrimSpace(r.Stderr))
+			return
+		}
+		o.Inconclusive = "migrate diff change: " + r.Stderr
+		return
+	}
+	plan := ""
+	ents, _ = os.ReadDir(mdir)
+	for _, e := range ents {
+		if strings.HasSuffix(e.Name(), "_change.sql") {
+			b, _ := os.ReadFile(filepath.Join(mdir, e.Name()))
+			plan = string(b)
+		}
+	}
+	o.Applied.Plan = []string{plan}
+	for _, sc := range []sqlm.Schema{cs.A, cs.B} {
+		for _, t := range sc.Tables {
+			if strings.Contains(plan, "`"+t.Name+"`") || strings.Contains(plan, "`new_"+t.Name+"`") || strings.Contains(plan, `"`+t.Name+`"`) {
+				if !slices.Contains(o.Applied.Tables, t.Name) {
+					o.Applied.Tables = append(o.Applied.Tables, t.Name)
+				}
+			}
+		}
+	}
+	r := run("migrate", "apply", "--dir", "file://migrations", "--url", url, "--tx-mode", cs.Migrate)
+	if r.Hung {
+		o.Inconclusive = "cli hung"
+		return
+	}
+	if r.Exit != 0 {
+		o.Failed = true
+		o.Applied.Stage, o.Applied.Err = "apply", r.Stderr+r.Stdout
+	}
+	after, err := dump(path)
+	if err != nil {
+		o.Inconclusive = "dump after: " + err.Error()
+		return
+	}
+	if o.Failed {
+		if cs.Migrate == "none" {
+			return
+		}
+		if same, why := before.Equal(after); !same {
+			o.atom("failed-plan-changed-database", "failed", map[string]any{"error": o.Applied.Err, "difference": why})
+		}
+		return
+	}
+	compare(cs, before, after, o.Applied.Tables, true, &o)
+	return
+}
+
 func runPair(ctx context.Context, atlas, dir string, cs Case) (o Outcome) {
+	if cs.Migrate != "" {
+		return runMigrate(atlas, dir, cs)
+	}
 	os.MkdirAll(dir, 0o755)
 	path := filepath.Join(dir, "f.db")
 	if why := setup(ctx, path, cs); why != "" {
@@ -481,7 +603,7 @@ func (m *monitor) keyFor(ctx context.Context, dir string, cs Case, atom string) 
 			return false
 		}
 		b, _ := json.Marshal(p)
-		mk := atom + "\x00" + fmt.Sprint(cs.CLI, cs.Pre != nil) + cs.Tx + cs.Flex + string(b)
+		mk := atom + "\x00" + fmt.Sprint(cs.CLI, cs.Pre != nil) + cs.Tx + cs.Flex + cs.Migrate + string(b)
 		if v, ok := m.memo.Load(mk); ok {
 			return v.(bool)
 		}
@@ -507,6 +629,10 @@ func (m *monitor) keyFor(ctx context.Context, dir string, cs Case, atom string) 
 		f = append(f, "two-step-history")
 		sort.Strings(f)
 	}
+	if cs.Migrate != "" {
+		f = append(f, "migrate-diff-apply:tx-"+cs.Migrate)
+		sort.Strings(f)
+	}
 	if cs.Tx == "none" {
 		// does the failure need the missing transaction?
 		c2 := cs
@@ -525,6 +651,9 @@ func (m *monitor) evaluate(ctx context.Context, dir string, cs Case) Outcome {
 	leg := "api"
 	if cs.CLI {
 		leg = "cli"
+	}
+	if cs.Migrate != "" {
+		leg = "cli-migrate"
 	}
 	m.evals.Add(1)
 	c.Count("leg:"+leg, 1)
@@ -788,6 +917,19 @@ func workload(c *rt.Ctx) []Case {
 	for _, cs := range fkw {
 		add(cs)
 	}
+	// the same change sets on hand-written databases whose FK clauses are in lower / mixed case, applied
+	// in a transaction (the transaction opener is then what protects the children)
+	k5 := 0
+	for _, cs := range fkw {
+		if cs.Tx == "none" {
+			continue
+		}
+		st := sqlm.ExtraStyles[k5%len(sqlm.ExtraStyles)]
+		k5++
+		cs.Mode, cs.Src = st.Name, "fk-case"
+		cs.Name = "fk-case(" + st.Name + "):" + cs.Name
+		add(cs)
+	}
 	c.Count("fk-wrapper-cases", int64(len(fkw)))
 	// 4b. fixed cases (identical at every seed): a user table called new_<t> next to a rebuilt <t>;
 	// physical column order != schema column order followed by a rebuild for a non-column reason;
@@ -829,6 +971,40 @@ func workload(c *rt.Ctx) []Case {
 			cs.Rows = rows
 			cs.Name = "cli:" + cs.Name
 			cases = append(cases, cs)
+		}
+		// the wrapper cases on databases whose foreign key clauses were typed in lower / mixed case,
+		// transactional (default tx-mode) — in-process above, here through the CLI as well; and the
+		// versioned workflow (plan on a dev database without enforcement, executed later)
+		k := 0
+		for _, cs := range cases {
+			if cs.Src == "fk-case" && !cs.CLI && cs.Migrate == "" {
+				if k%2 == 0 {
+					cs.CLI = true
+					cs.Name = "cli:" + cs.Name
+					cases = append(cases, cs)
+				}
+				k++
+			}
+		}
+		k = 0
+		for _, cs := range fkw {
+			if cs.Tx != "none" {
+				continue
+			}
+			if strings.Contains(cs.Name, "on delete CASCADE") || strings.Contains(cs.Name, "on delete SET NULL") {
+				if k%c.Pick(3, 1) == 0 {
+					mc := cs
+					mc.Tx, mc.Mode, mc.Rows = "", "atlas", rows
+					mc.Migrate = []string{"none", "file"}[(k/3)%2]
+					if k%c.Pick(3, 1) == 0 && k%2 == 1 {
+						mc.Migrate = "none"
+					}
+					mc.Src = "migrate"
+					mc.Name = "migrate(" + mc.Migrate + "):" + strings.TrimSuffix(cs.Name, " (tx none)")
+					cases = append(cases, mc)
+				}
+				k++
+			}
 		}
 		// and, always, some of the wrapper cases through `schema apply --tx-mode none`
 		n = 0
